@@ -32,11 +32,11 @@ def run_sweep(tier, modules=None, use_cache=True, log=True):
     if use_cache and os.path.isdir(d):
         for m in mods:
             p = os.path.join(d, m + '.json')
-            if os.path.exists(p):
+            try:
                 with open(p) as f:
                     results[m] = json.load(f)
                 results[m]['from_cache'] = True
-            else:
+            except (OSError, ValueError):
                 todo.append(m)
     else:
         todo = list(mods)
@@ -49,8 +49,11 @@ def run_sweep(tier, modules=None, use_cache=True, log=True):
             res = json.loads(json.dumps(res, default=repr))
             results[item[0]] = res
             if 'crash' not in res or not res.get('timeout'):
-                with open(os.path.join(d, item[0] + '.json'), 'w') as f:
+                os.makedirs(d, exist_ok=True)
+                tmp = os.path.join(d, '.%s.%d.tmp' % (item[0], os.getpid()))
+                with open(tmp, 'w') as f:
                     json.dump(res, f)
+                os.replace(tmp, os.path.join(d, item[0] + '.json'))
             if log:
                 print('  swept %-40s %6.1fs %s' % (item[0], secs, res.get('crash', '')[:80]), flush=True)
         # longest first
@@ -59,10 +62,12 @@ def run_sweep(tier, modules=None, use_cache=True, log=True):
         if log:
             print('  sweep of %d modules: %.1fs' % (len(todo), time.time() - t0), flush=True)
         # keep only the newest few cache generations
+        # keep the newest generations; never remove one that was touched in the last six hours (another run may be using it)
         gens = sorted((os.path.getmtime(os.path.join(CACHE, g)), g) for g in os.listdir(CACHE))
-        for _, g in gens[:-3]:
-            import shutil
-            shutil.rmtree(os.path.join(CACHE, g), ignore_errors=True)
+        for mt, g in gens[:-6]:
+            if g != h and time.time() - mt > 6 * 3600:
+                import shutil
+                shutil.rmtree(os.path.join(CACHE, g), ignore_errors=True)
     return results
 
 
